@@ -98,7 +98,7 @@ def run_check(prop, tier="quick", seed=0, replay=None, jobs=None, verbose=True):
         shutil.rmtree(workdir, ignore_errors=True)
 
     # ---------------------------------------------------------------- merge
-    monitors, counters, known_hits = {}, {}, {}
+    monitors, counters, known_hits, vclasses = {}, {}, {}, {}
     nontrivial, samples, violations, errors = set(), [], [], []
     inconclusive = []
     cases_run = 0
@@ -120,6 +120,8 @@ def run_check(prop, tier="quick", seed=0, replay=None, jobs=None, verbose=True):
             counters[k] = counters.get(k, 0) + v
         for k, v in r["known_hits"].items():
             known_hits[k] = known_hits.get(k, 0) + v
+        for k, v in r.get("vclasses", {}).items():
+            vclasses[k] = vclasses.get(k, 0) + v
         nontrivial.update(r["nontrivial"])
         for s in r["samples"]:
             if len(samples) < 6:
@@ -151,6 +153,12 @@ def run_check(prop, tier="quick", seed=0, replay=None, jobs=None, verbose=True):
             knownv.setdefault(mech, []).append(v)
         else:
             real.append(v)
+    # diversify: interleave the violation classes so the first replay files cover them all
+    byc = {}
+    for v in real:
+        byc.setdefault((v["monitor"], v.get("finding")), []).append(v)
+    real = [v for tup in __import__("itertools").zip_longest(*byc.values()) for v in tup
+            if v is not None]
     # findings counted but whose witnesses were not stored
     for mech, n in known_hits.items():
         if mech in known_mech:
@@ -195,6 +203,7 @@ def run_check(prop, tier="quick", seed=0, replay=None, jobs=None, verbose=True):
             "cases_run": cases_run,
             "monitor_evaluations": monitors,
             "observed": counters,
+            "violation_classes": vclasses,
             "known_finding_hits": {m: n for m, n in known_hits.items() if m in known_mech},
             "shards": len(specs),
             "verdict": verdict,
@@ -226,4 +235,6 @@ def run_check(prop, tier="quick", seed=0, replay=None, jobs=None, verbose=True):
           f"wall={wall:.1f}s")
     if verbose:
         print("  monitors:", json.dumps(monitors, sort_keys=True))
+        if vclasses:
+            print("  violation classes (monitor|defect-model):", json.dumps(vclasses, sort_keys=True))
     return code
